@@ -795,14 +795,51 @@ def _check_blocks(repo, r2, s, enc, search, fte, fts, L):
 
 
 # ----------------------------------------------------------------------------- R1.3 Pi2Lev case split
+def pi2lev_case_chain(repo, enc):
+    """The if/elif chain of Pi2Lev._Enc that dispatches on len(database[w]) inside the keyword loop -> list of its If nodes (or [])."""
+    ft = fn_terms(repo, enc)
+    dbp = ("param", enc.params[2])
+    NLEN = ("call", "len", (("sub", dbp, ("elem", dbp)),), ())
+    chain = None
+    for st in ast.walk(enc.node):
+        if isinstance(st, ast.If) and isinstance(st.test, ast.Compare) and isinstance(getattr(st, "_parent", None), ast.For) and st.orelse and isinstance(st.orelse[0], ast.If):
+            try:
+                nid_ = ft.cfg.nodes_of(st)[0]
+                ops = [ft.term(o, nid_) for o in [st.test.left] + list(st.test.comparators)]
+            except Exception:
+                continue
+            if NLEN in ops:
+                chain = st
+    branches = []
+    cur = chain
+    while isinstance(cur, ast.If):
+        branches.append(cur)
+        cur = cur.orelse[0] if len(cur.orelse) == 1 and isinstance(cur.orelse[0], ast.If) else None
+    return branches
+
+
 def _check_pi2lev_split(repo, r3, s):
     enc = s.method("_Enc")
     L = Lengths(repo, s)
     ft = fn_terms(repo, enc)
     chain = None
-    NLEN = "len(%s[keyword])" % enc.params[2]
+    dbp = ("param", enc.params[2])
+    NLEN = ("call", "len", (("sub", dbp, ("elem", dbp)),), ())   # len(database[w]) for the keyword w of the enclosing loop, whatever it is called
+
+    def operands_of(test, at):
+        if not isinstance(test, ast.Compare):
+            return None
+        nid_ = ft.cfg.nodes_of(at)[0]
+        try:
+            return [ft.term(o, nid_) for o in [test.left] + list(test.comparators)]
+        except Exception:
+            return None
+
+    def on_length(st):
+        ops = operands_of(st.test, st)
+        return ops is not None and NLEN in ops
     for st in ast.walk(enc.node):
-        if isinstance(st, ast.If) and isinstance(st.test, ast.Compare) and NLEN in itext(enc, st.test) and \
+        if isinstance(st, ast.If) and on_length(st) and \
                 isinstance(getattr(st, "_parent", None), ast.For) and st.orelse and isinstance(st.orelse[0], ast.If):
             chain = st
     if not r3.require(chain is not None, enc, "case split", "Pi2Lev._Enc: the small/medium/large case split vanished"):
@@ -812,33 +849,31 @@ def _check_pi2lev_split(repo, r3, s):
     while isinstance(cur, ast.If):
         branches.append(cur)
         cur = cur.orelse[0] if len(cur.orelse) == 1 and isinstance(cur.orelse[0], ast.If) else None
-    nid = ft.cfg.nodes_of(chain)[0]
 
-    def bounds(test):
+    def bounds(br):
         """(lower term or None, lower strict?, upper term or None, upper inclusive?) for tests on n = len(database[keyword])"""
-        from ..model import inline_locals
-        t = inline_locals(enc.node, test)
-        if not isinstance(t, ast.Compare):
+        t = br.test
+        operands = operands_of(t, chain)
+        if operands is None:
             return None
         ops = [type(o) for o in t.ops]
-        operands = [t.left] + list(t.comparators)
-        idx = next((i for i, o in enumerate(operands) if NLEN == unparse(o)), None)
+        idx = next((i for i, o in enumerate(operands) if o == NLEN), None)
         if idx is None:
             return None
         lo = up = None
         lo_strict = up_incl = None
         if idx > 0:
-            lo = L.value(ft.term(operands[idx - 1], nid))
+            lo = L.value(operands[idx - 1])
             lo_strict = ops[idx - 1] is ast.Lt
             if ops[idx - 1] not in (ast.Lt, ast.LtE):
                 return None
         if idx < len(operands) - 1:
-            up = L.value(ft.term(operands[idx + 1], nid))
+            up = L.value(operands[idx + 1])
             up_incl = ops[idx] is ast.LtE
             if ops[idx] not in (ast.Lt, ast.LtE):
                 return None
         return lo, lo_strict, up, up_incl
-    bs = [bounds(b.test) for b in branches]
+    bs = [bounds(b) for b in branches]
     if not r3.require(all(b is not None for b in bs) and len(bs) == 3, enc, "case split form", "Pi2Lev._Enc: the case split is not a chain of three range tests on the list length"):
         return
     r3.require(bs[0][0] is None, enc, "small case has no lower bound", "the small case excludes short lists")
@@ -852,26 +887,30 @@ def _check_pi2lev_split(repo, r3, s):
     last = branches[-1]
     r3.require(bool(last.orelse) and isinstance(last.orelse[-1], ast.Raise), enc, "too large refused", "lists beyond the large case are not refused")
     # reservation conditions
-    pre = [st for st in ast.walk(enc.node) if isinstance(st, ast.If) and isinstance(st.test, ast.Compare) and NLEN in itext(enc, st.test)
+    pre = [st for st in ast.walk(enc.node) if isinstance(st, ast.If) and on_length(st)
            and st is not chain and st not in branches and any(isinstance(x, ast.AugAssign) for x in st.body)]
     if r3.require(len(pre) == 2, enc, "slot reservation", "Pi2Lev._Enc: expected two reservation conditions for the array length, found %d" % len(pre)):
-        nid2 = ft.cfg.nodes_of(pre[0])[0]
         got = []
-        from ..model import inline_locals as _il
         for p in pre:
-            t = _il(enc.node, p.test)
-            if len(t.ops) == 1 and isinstance(t.ops[0], ast.Gt) and unparse(t.left) == NLEN:
-                got.append(L.value(ft.term(p.test.comparators[0], nid2)))
+            ops = operands_of(p.test, p)
+            if len(p.test.ops) == 1 and ((isinstance(p.test.ops[0], ast.Gt) and ops[0] == NLEN) or (isinstance(p.test.ops[0], ast.Lt) and ops[1] == NLEN)):
+                got.append(L.value(ops[1] if ops[0] == NLEN else ops[0]))
         want = [bs[1][0], bs[2][0]]
         r3.require(len(got) == 2 and sorted(x.canon() for x in got) == sorted(x.canon() for x in want), enc, "reservation matches the case split",
                    "Pi2Lev._Enc reserves array slots for n > %s but the medium/large cases start at n > %s: lists in between get no slots (pop from an empty "
                    "list) or waste them" % ([x.canon() for x in got], [x.canon() for x in want]))
         # amounts: ceil(n / B) and ceil(n / (B * B'))
-        amounts = [itext(enc, x.value) for p in pre for x in p.body if isinstance(x, ast.AugAssign)]
-        B, Bp = L.slot_value("param_B"), L.slot_value("param_B_prime")
-        a_ok = len(amounts) == 2 and ("math.ceil(%s / self.config.param_B)" % NLEN) in amounts[0].replace("(self.config.param_B)", "self.config.param_B") \
-            and "param_B_prime" in amounts[1] and "param_B " in amounts[1] + " " and "math.ceil" in amounts[1]
-        r3.require(a_ok, enc, "reserved amounts", "Pi2Lev._Enc reserves %s slots, expected ceil(n/B) and ceil(n/(B*B'))" % amounts)
+        amounts = []
+        for p in pre:
+            for x in p.body:
+                if isinstance(x, ast.AugAssign) and isinstance(x.op, ast.Add):
+                    nid_ = ft.cfg.nodes_of(x)[0]
+                    amounts.append(ft.term(x.value, nid_))
+        B, Bp = ("cfg", "param_B"), ("cfg", "param_B_prime")
+        w1 = ("call", "math.ceil", (("binop", "Div", NLEN, B),), ())
+        w2 = [("call", "math.ceil", (("binop", "Div", NLEN, ("binop", "Mult", x, y)),), ()) for x, y in ((B, Bp), (Bp, B))]
+        a_ok = len(amounts) == 2 and ((amounts[0] == w1 and amounts[1] in w2) or (amounts[1] == w1 and amounts[0] in w2))
+        r3.require(a_ok, enc, "reserved amounts", "Pi2Lev._Enc reserves %s slots, expected ceil(n/B) and ceil(n/(B*B'))" % [show(x, maxdepth=6) for x in amounts])
 
 
 # ----------------------------------------------------------------------------- R1.4 capacities
@@ -952,16 +991,31 @@ def _check_capacity(repo, r4, schemes):
                            "ANSS16: the list size n_w <= 2^t is encoded in %s bytes; t+1 bits (ceil((t+1)/8) bytes) are needed, otherwise a list of 256, 65536, ... "
                            "postings (or N = 1) raises OverflowError" % show(w, maxdepth=5)[:80], c)
         if s.name == "DP17.Pi":
-            sdefs = [d for d in ft.defs if d.var == "s" and d.kind == "assign"]
-            pdefs = [d for d in ft.defs if d.var == "p" and d.kind == "assign"]
-            if r4.require(bool(sdefs) and bool(pdefs), enc, "DP17 level spacing", "DP17: level count s / spacing p vanished"):
-                st_ = ft.def_term(sdefs[0])
-                pos = st_[0] == "call" and st_[1] == "max" and any(a == ("const", 1) for a in st_[2])
-                divides = any(isinstance(x, ast.BinOp) and isinstance(x.op, ast.Div) and isinstance(x.right, ast.Name) and x.right.id == "s" for x in ast.walk(pdefs[0].value))
-                r4.require(pos or not divides, enc, "DP17 divisor positive",
-                           "DP17: p = ceil(l / s) divides by s = %s, which is 0 for a one-posting database (l = 0): ZeroDivisionError" % show(st_, maxdepth=4)[:80], sdefs[0].stmt)
-                lv = [d for d in ft.defs if d.var == "levels" and d.kind == "assign"]
-                r4.require(bool(lv), enc, "DP17 levels list", "DP17: the list of stored levels vanished")
+            # recognised by shape, whatever the locals are called: l = ceil(log2 N); spacing = ceil(l / <count>); levels l - i * spacing
+            from ..terms import walk as _walk
+            N_ = ("call", "toolkit/database_utils.py::get_total_size", (("param", enc.params[2]),), ())
+            lt = ("call", "math.ceil", (("call", "math.log2", (N_,), ()),), ())
+            seen_terms = []
+            for d in ft.defs:
+                if d.kind != "assign":
+                    continue
+                try:
+                    seen_terms.append((d, ft.def_term(d)))
+                except Exception:
+                    continue
+            divs = {}
+            for d, tt in seen_terms:
+                for x in _walk(tt):
+                    if isinstance(x, tuple) and len(x) == 4 and x[0] == "binop" and x[1] in ("Div", "FloorDiv") and x[2] == lt:
+                        divs.setdefault(x[3], d)
+            if r4.require(bool(divs), enc, "DP17 level spacing", "DP17: the level spacing ceil(l / s) (l = ceil(log2 N), s = number of stored levels) vanished"):
+                for dv, d in sorted(divs.items(), key=lambda kv: repr(kv[0])):
+                    pos = dv[0] == "call" and dv[1] == "max" and any(a == ("const", 1) for a in dv[2])
+                    r4.require(pos, enc, "DP17 divisor positive",
+                               "DP17: p = ceil(l / s) divides by s = %s, which is 0 for a one-posting database (l = 0): ZeroDivisionError" % show(dv, maxdepth=4)[:80], d.stmt)
+                lv = [d for d, tt in seen_terms if any(isinstance(x, tuple) and len(x) == 4 and x[0] == "binop" and x[1] == "Sub" and x[2] == lt and
+                                                       isinstance(x[3], tuple) and x[3][:2] == ("binop", "Mult") for x in _walk(tt))]
+                r4.require(bool(lv), enc, "DP17 levels list", "DP17: the list of stored levels (l - i * p) vanished")
             check_dp17_level_choice(repo, r4, s)
 
 
